@@ -682,7 +682,7 @@ where
     {
         let RecordContainerComponents { history, numbers } = collect_into_components(iter)?;
         let data_length = numbers.len();
-        if data_length == size.0 * size.1 {
+        if Some(data_length) == size.0.checked_mul(size.1) {
             Ok(RecordMatrix::from_existing(
                 history,
                 MatrixView::from(Matrix::from_flat_row_major(size, numbers)),
@@ -724,7 +724,7 @@ where
             Err(error) => Err(error),
             Ok(RecordContainerComponents { history, numbers }) => {
                 let data_length = numbers.len();
-                if data_length == size.0 * size.1 {
+                if Some(data_length) == size.0.checked_mul(size.1) {
                     Ok(RecordMatrix::from_existing(
                         history,
                         MatrixView::from(Matrix::from_flat_row_major(size, numbers)),
